@@ -40,6 +40,7 @@ pub fn c14_shared_node(s: Shape) {
         let exits = (s.p[4] >> i) & 1 == 1;
         let step = s.p[6] == 1 && i == 0;
         hs.push(std::thread::spawn(move || {
+            vrt::start_line(nt as u32);
             let mut kept: Vec<EntryStrongPtr> = Vec::new();
             for j in 0..per {
                 let e = EntryBuilder::new(res.clone())
